@@ -203,15 +203,39 @@ def build_scorer(spec, X, k, n_table=None):
         T = make_table(n_table or n, k, int(spec.get("q", 1)), spec["seed"], spec["style"])
         cls = classes()[0 if k == 3 else 1]
         sc = cls(table=T, size=1)
-        return sc, (lambda *cut: float(T[tuple(cut)].sum())), 1, sc
+
+        def tab(*cut):
+            return float(T[tuple(cut)].sum())
+
+        tab.alt = None
+        return sc, tab, 1, sc
     table = builtin_change_scores(p) if k == 3 else builtin_local_scores(p)
     make, msize, agg = table[spec["name"]]
+    from skchange.anomaly_scores import to_local_anomaly_score
+    from skchange.change_scores import to_change_score
+    conv = to_change_score if k == 3 else to_local_anomaly_score
     obj = make()
     if spec.get("as_score"):        # kernels want a scorer, not a cost
-        from skchange.anomaly_scores import to_local_anomaly_score
-        from skchange.change_scores import to_change_score
-        obj = to_change_score(obj) if k == 3 else to_local_anomaly_score(obj)
-    return obj, (lambda *cut: agg(X, *cut)), msize, None
+        obj = conv(obj)
+
+    def direct(*cut):
+        return agg(X, *cut)
+
+    fresh = []
+
+    def alt(*cut):
+        """Second reference for 'the score of this cut': a fresh instance of the same scorer class, one cut at a time.
+        The statements of C07-C09 take the scorer's value as given (its relation to the costs is C06/C01); a value is only
+        reported as wrong when it differs from the direct definition AND from this."""
+        if not fresh:
+            fresh.append(conv(make()).fit(X))
+        try:
+            return float(np.sum(fresh[0].evaluate(np.array([cut], dtype=np.int64))))
+        except Exception:      # noqa: BLE001
+            return None
+
+    direct.alt = alt
+    return obj, direct, msize, None
 
 
 # ------------------------------------------------------------------------------------------------------------------
